@@ -1870,8 +1870,13 @@ class CParser:
             tok = self._advance()
             result = self._try_parse_paren_type_name()
             if result is not None:
-                typ, _, _ = result
-                return c_ast.UnaryOp(tok.value, typ, self._tok_coord(tok))
+                typ, mark, _ = result
+                if self._peek_type() == "LBRACE":
+                    # sizeof (type){...}: the operand is a compound literal
+                    # (a unary expression), not a parenthesized type name.
+                    self._reset(mark)
+                else:
+                    return c_ast.UnaryOp(tok.value, typ, self._tok_coord(tok))
             expr = self._parse_unary_expression()
             return c_ast.UnaryOp(tok.value, expr, self._tok_coord(tok))
 
